@@ -6,10 +6,11 @@
 set -u
 cd "$(dirname "$0")"
 F="$1"
-read -r PROP FLAVOUR < <(python3 - "$F" <<'PY'
+read -r PROP FLAVOUR PLANENGINE MODE < <(python3 - "$F" <<'PY'
 import json, sys
 j = json.load(open(sys.argv[1]))
-print(j.get("engine_property", ""), j.get("flavour", "plain") or "plain")
+plan = j.get("plan", {}) if isinstance(j.get("plan"), dict) else {}
+print(j.get("engine_property", ""), j.get("flavour", "plain") or "plain", plan.get("engine", "-") or "-", j.get("mode", "") or "-")
 PY
 )
 case "$PROP" in
@@ -20,6 +21,11 @@ case "$PROP" in
   C20) ENGINE=updsim ;;
   *) echo "cannot tell the engine from $F" >&2; exit 2 ;;
 esac
-[ "$ENGINE" = gcsim ] || FLAVOUR=plain
+if [ "$PLANENGINE" = rngreal ]; then ENGINE=rngreal; FLAVOUR=real; fi
+case "$ENGINE/$FLAVOUR" in
+  gcsim/*|qhist/tsan|rngreal/real) ;;
+  *) FLAVOUR=plain ;;
+esac
 BIN="$(./build.sh "$ENGINE" "$FLAVOUR")" || exit 2
+if [ "$MODE" != "-" ] && [ -n "$MODE" ]; then exec "$BIN" --property "$PROP" --flavour "$FLAVOUR" --mode "$MODE" --replay "$F"; fi
 exec "$BIN" --property "$PROP" --flavour "$FLAVOUR" --replay "$F"
